@@ -77,6 +77,9 @@ type h2Client struct {
 	goaway bool
 	pings  byte
 	opened bool
+	// refused: a graceful GOAWAY arrived whose last-stream-id is below the stream just opened: by protocol that stream
+	// was not processed and is to be retried on another connection (the client had not read the GOAWAY yet)
+	refused bool
 }
 
 func newH2(addr string) (client, error) {
@@ -173,6 +176,7 @@ func (h *h2Client) handle(f http2.Frame) error {
 	case *http2.GoAwayFrame:
 		h.goaway = true
 		if f.LastStreamID < h.sid {
+			h.refused = f.ErrCode == http2.ErrCodeNo
 			return fmt.Errorf("GOAWAY last stream %d refuses stream %d (code %v)", f.LastStreamID, h.sid, f.ErrCode)
 		}
 	case *http2.RSTStreamFrame:
@@ -232,6 +236,7 @@ func (h *h2Client) pump(upto int) error {
 
 func (h *h2Client) BigSize() int   { return 256 << 10 }
 func (h *h2Client) GoneAway() bool { return h.goaway }
+func (h *h2Client) Refused() bool  { return h.refused }
 
 func (h *h2Client) ReadHalf() error { return h.pump(32 << 10) }
 
